@@ -15,7 +15,7 @@ RULE = ('cases = tables over string/integer/number/boolean/date/time/datetime/ye
         'distinct = distinct case digest')
 TRUSTED = ['Coq 8.16.1 kernel + vm_compute', 'harness/p03.py oracle and the independent decoder (reads the written files with only the recorded dialect / format / missingValues / field properties)',
            'Python scalar text codecs satisfy parse(print x) = x (hypotheses of C03_field_codec; exercised end to end)',
-           'the CSV-layer round trip read_csv (write_csv recs) = recs is a premise of C03_dump_load_csv, checked by vm_compute on the cell texts of every generated CSV case']
+           'the CSV-layer round trip read_csv (write_csv recs) = Ok recs is proved for every table (C03_csv_layer_roundtrip, IO/Csv_proofs.v); that IO/Csv.v is Python\'s csv writer/reader is checked by vm_compute against the csv module on the cell texts of every generated CSV case']
 ASSUMES = ['the empty string is a missing value by Table Schema convention (\'\' loads back as null)', 'naive datetimes, second precision']
 
 STRS = ['a', 'b c', ' pad ', 'say "hi"', 'a,b', 'line1\nline2', 'é☃𝄞', 'x;y', "it's", '1', 'True', 'NULL', '\ttab']
@@ -65,6 +65,15 @@ def gen_cases(rng, tier):
             pkg.append({'name': 'res%d' % r, 'fields': fields, 'rows': rows_enc(rows)})
         cases.append({'kind': 'roundtrip', 'pkg': pkg, 'format': rng.pick(['csv', 'csv', 'json']), 'zip': rng.chance(0.3),
                       'hashpath': rng.chance(0.25), 'tfp': rng.chance(0.25)})
+    # the CSV layer alone: the model of Python's csv against the csv module, on tables and on arbitrary texts
+    alpha = ['a', 'b', ',', '"', '\r', '\n', ' ', 'é']
+    for i in range({'quick': 60, 'thorough': 600, 'search': 100}[tier]):
+        if rng.chance(0.5):
+            recs = [[''.join(rng.pick(alpha) for _ in range(rng.randint(0, 4))) for _ in range(rng.randint(0, 3))]
+                    for _ in range(rng.randint(0, 4))]
+            cases.append({'kind': 'csvlayer', 'recs': recs})
+        else:
+            cases.append({'kind': 'csvtext', 'text': ''.join(rng.pick(alpha) for _ in range(rng.randint(0, 12)))})
     # row counts at the library's usual batch size (1000) and around it
     sizes = {'quick': [1000], 'thorough': [999, 1000, 1001, 2000], 'search': [1000, 2000]}[tier]
     for n_ in sizes:
@@ -84,7 +93,24 @@ def witnesses():
              'format': 'csv', 'zip': False, 'hashpath': False, 'tfp': False, 'witness_of': 'C03.crlf_in_cell'}]
 
 
+def run_csv(case):
+    out = {}
+    if case['kind'] == 'csvlayer':
+        buf = io.StringIO(newline='')
+        csv.writer(buf).writerows(case['recs'])
+        out['text'] = buf.getvalue()
+    else:
+        out['text'] = case['text']
+    try:
+        out['read'] = list(csv.reader(io.StringIO(out['text'], newline='')))
+    except csv.Error as e:
+        out['read_error'] = str(e)
+    return out
+
+
 def run_impl(case):
+    if case['kind'] in ('csvlayer', 'csvtext'):
+        return run_csv(case)
     base = os.path.join(scratch(), 'c3_%s' % digest(case))
     shutil.rmtree(base, ignore_errors=True)
     os.makedirs(base)
@@ -199,6 +225,12 @@ def independent_decode(case, out):
 
 
 def oracle(case, out):
+    if case['kind'] == 'csvtext':
+        return None
+    if case['kind'] == 'csvlayer':
+        if out.get('read') != case['recs']:
+            return 'csv module: wrote %r, read back %r' % (case['recs'], out.get('read', out.get('read_error')))
+        return None
     if 'dump_error' in out:
         return 'dump failed: %s' % out['dump_error']
     p = independent_decode(case, out)
@@ -228,6 +260,8 @@ def oracle(case, out):
 
 
 def finding(case, out, failure):
+    if case['kind'] != 'roundtrip':
+        return None
     if case['format'] == 'json' and failure and ('load of the dumped package failed' in failure or 'loaded as' in failure):
         if any([n for n, _ in r['fields']] != sorted(n for n, _ in r['fields']) for r in case['pkg']) and not independent_decode(case, out):
             return 'C03.json_field_order'
@@ -240,6 +274,12 @@ def finding(case, out, failure):
 
 
 def coq_term(case, out):
+    if case['kind'] in ('csvlayer', 'csvtext'):
+        rd = ('match read_csv %s with Ok r => list_eqb (list_eqb str_eqb) r %s | Err _ => false end' % (cstr(out['text']), clist([cstrs(r) for r in out['read']]))
+              if 'read' in out else 'match read_csv %s with Ok _ => false | Err _ => true end' % cstr(out['text']))
+        if case['kind'] == 'csvlayer':
+            return '(str_eqb (write_csv %s) %s && %s)' % (clist([cstrs(r) for r in case['recs']]), cstr(out['text']), rd)
+        return '(%s)' % rd
     if case['format'] != 'csv' or 'files' not in out or case.get('big'):
         return None
     desc = json.loads(out['files']['datapackage.json'])
@@ -260,7 +300,7 @@ def nontrivial(case, out):
 
 
 def shrinks(case):
-    if case.get('big'):
+    if case.get('big') or case['kind'] != 'roundtrip':
         return
     for ri, r in enumerate(case['pkg']):
         for j in range(len(r['rows'])):
